@@ -3,6 +3,14 @@
 import json, os, re
 ROOT = os.path.dirname(os.path.dirname(os.path.abspath(__file__)))
 rows = []
+# verdict of the FIRST run of the checks against each change, before any strengthening (recorded by hand from the
+# run logs; "first" = the state of the checks when the change arrived)
+FIRST = {
+    "C02-a1": "missed (INCONCLUSIVE only)", "C01-a3": "missed (INCONCLUSIVE only)", "C02-a3": "missed (assert removal hidden behind an aborted flow check)",
+    "C07-a1": "missed (macro layer not analysed yet)", "C07-a2": "missed", "C07-a3": "missed", "C17-a3": "missed", "C19-a2": "missed", "C19-a3": "missed",
+    "C12-a3": "caught by C01/C07 only", "C09-a3": "missed (`unsafe fn` exemption too wide)", "C10-a1": "missed", "C10-a2": "missed", "C10-a3": "INCONCLUSIVE only",
+    "C06-a1": "INCONCLUSIVE only", "C06-a3": "caught by C14/C15/C21/C22 only", "C14-a3": "caught by C12/C20 only", "C18-a1": "missed", "C18-a2": "INCONCLUSIVE only", "C18-a3": "missed",
+}
 for d in sorted(os.listdir(os.path.join(ROOT, "seeded"))):
     p = os.path.join(ROOT, "seeded", d)
     if not os.path.exists(os.path.join(p, "patch.diff")):
@@ -20,8 +28,8 @@ for d in sorted(os.listdir(os.path.join(ROOT, "seeded"))):
                 obs.append(m.group(1))
     files = sorted(set(re.findall(r"^\+\+\+ b/(\S+)", open(os.path.join(p, "patch.diff")).read(), re.M)))
     verdict = "caught" if target in hit else ("caught by other property only" if hit else ("inconclusive" if inc else "MISSED"))
-    rows.append("| %s | %s | %s | %s | %s | %s | %s |" % (d, target, ", ".join(f.split("/")[-1] for f in files), meta.get("verified", ""), verdict, ", ".join(obs[:4]), ", ".join(x for x in hit if x != target)))
-hdr = "| seed | target | file(s) | verified here | verdict of the target's check | obligations that fired | other properties that also alarmed |\n|---|---|---|---|---|---|---|\n"
+    rows.append("| %s | %s | %s | %s | %s | %s | %s | %s |" % (d, target, ", ".join(f.split("/")[-1] for f in files), {True: "yes", "partial": "partly (see meta.json)", False: "NO"}.get(meta.get("verified"), str(meta.get("verified", "pending"))), FIRST.get(d, "caught"), verdict, ", ".join(obs[:4]), ", ".join(x for x in hit if x != target)))
+hdr = "| seed | target | file(s) | verified here | first run (before strengthening) | target's check now | obligations that fire | other properties that also alarm |\n|---|---|---|---|---|---|---|---|\n"
 txt = hdr + "\n".join(rows) + "\n"
 p = os.path.join(ROOT, "DESIGN.md")
 s = open(p).read()
